@@ -15,6 +15,7 @@ _scan = {}
 
 
 def program(tag="A"):
+    tag = os.environ.get("VERIF_CONFIG", tag)     # thorough tier: second pass over the feature-less build (B)
     if tag not in _prog:
         _prog[tag] = Program(tag)
     return _prog[tag]
